@@ -102,7 +102,7 @@ class AbstractOption(object):
         if not long_name[:1].isalpha():
             raise ValueError("The long option name must start with a letter")
 
-        if not re.match(r"^[a-zA-Z0-9\-]+$", long_name):
+        if not re.match(r"^[a-zA-Z0-9\-]+\Z", long_name):
             raise ValueError(
                 "The long option name must contain letters, digits and hyphens only."
             )
@@ -128,7 +128,7 @@ class AbstractOption(object):
         if not short_name:
             raise ValueError("The short option name must not be empty.")
 
-        if not re.match(r"^[a-zA-Z]$", short_name):
+        if not re.match(r"^[a-zA-Z]\Z", short_name):
             raise ValueError("The short option name must be exactly one letter.")
 
     def _add_default_flags(self, flags):  # type: (int) -> int
